@@ -288,3 +288,58 @@ Proof.
   rewrite Hann. rewrite chunks_concat by (assumption || lia).
   unfold descs, all. now rewrite rl_entries_numbered.
 Qed.
+
+(* ------------------------------------------------------------------ plain table builders and their decoders *)
+Definition plain_builder_body (n : Z) (tname : string) : list st :=
+  [SAssign "result" (EBytearray (EConst (PInt n))); SEncode (EVar "data") tname "result"; SReturn (EVar "result")].
+
+Theorem plain_builder_exact : forall (name tname : string) (F : fundef) (T : layout) (n : nat),
+  lookup name py_program = Some F -> fn_params F = [("data", None)] -> fn_body F = plain_builder_body (Z.of_nat n) tname ->
+  lookup tname all_tables = Some T -> (Z.of_nat n <= 1048576)%Z ->
+  forall (dd : list (string * pv)) (r : bytes) f, 1 <= f -> encode_pv dd T (zeros n) = Ok r ->
+  call_fun all_tables py_program f name [PDict dd] = Ok (PBytes r).
+Proof.
+  intros name tname F T n HF Hp Hb HT Hn dd r f Hf Henc. destruct f as [|f]; [lia|].
+  unfold call_fun, call_with. rewrite HF, Hp. cbn [bind_params]. rewrite run_S, exec_if. cbn [eval truthy]. rewrite Hb. unfold plain_builder_body.
+  step. cbn [bytearray_eval as_int]. destruct (Z.ltb_spec (Z.of_nat n) 0); [lia|]. destruct (Z.ltb_spec 1048576 (Z.of_nat n)); [lia|]. rewrite Nat2Z.id.
+  step. cbn [lookup String.eqb Ascii.eqb Bool.eqb]. rewrite HT. unfold with_var. lk. rewrite Henc.
+  step. reflexivity.
+Qed.
+
+(* a structure that is one table in both directions: decoding what was built from a complete valid dictionary returns it *)
+Theorem plain_pair_round_trip : forall (bname dname tname : string) (B D : fundef) (T : layout) (n : nat),
+  lookup bname py_program = Some B -> fn_params B = [("data", None)] -> fn_body B = plain_builder_body (Z.of_nat n) tname ->
+  lookup dname py_program = Some D -> fn_params D = [("data", None)] -> fn_body D = plain_body tname ->
+  lookup tname all_tables = Some T -> wf_layout n T = true -> masks_nonzero T = true -> names_distinct (map fst T) = true -> (Z.of_nat n <= 1048576)%Z ->
+  forall (dv : list (string * value)) f, 1 <= f -> valid_dict n T dv = true -> map fst dv = map fst T ->
+  exists built, call_fun all_tables py_program f bname [PDict (dict_of_decoded dv)] = Ok (PBytes built) /\
+    call_fun all_tables py_program f dname [PBytes built] = Ok (PDict (dict_of_decoded dv)).
+Proof.
+  intros bname dname tname B D T n HB HBp HBb HD HDp HDb HT Hwf Hm Hd Hn dv f Hf Hv Hk.
+  destruct (valid_dict_parts _ _ _ Hv) as (_ & Hvals).
+  destruct (encode_dict_bits n T dv (zeros n) (zeros_length n) (bytes_ok_zeros n) Hvals) as (r & E & _).
+  exists r. split.
+  - eapply plain_builder_exact; try eassumption. now rewrite encode_pv_of_decoded.
+  - rewrite (plain_decoder_total dname tname D T HD HDp HDb HT Hm Hd r f Hf). f_equal. f_equal. f_equal.
+    unfold decode_total. now rewrite (decode_bits_of_encoded n T dv r Hwf Hv Hk E).
+Qed.
+
+Theorem readcapacity10_round_trip : forall (dv : list (string * value)) f, 1 <= f ->
+  valid_dict 8 T_rc10 dv = true -> map fst dv = map fst T_rc10 ->
+  exists built, call_fun all_tables py_program f "scsi_cdb_readcapacity10.ReadCapacity10.marshall_datain" [PDict (dict_of_decoded dv)] = Ok (PBytes built) /\
+    call_fun all_tables py_program f "scsi_cdb_readcapacity10.ReadCapacity10.unmarshall_datain" [PBytes built] = Ok (PDict (dict_of_decoded dv)).
+Proof.
+  apply (plain_pair_round_trip _ _ "scsi_cdb_readcapacity10.ReadCapacity10._datain_bits"
+           PF_scsi_cdb_readcapacity10_ReadCapacity10_marshall_datain PF_scsi_cdb_readcapacity10_ReadCapacity10_unmarshall_datain T_rc10 8);
+    vm_compute; try reflexivity; discriminate.
+Qed.
+
+Theorem readcapacity16_round_trip : forall (dv : list (string * value)) f, 1 <= f ->
+  valid_dict 32 T_rc16 dv = true -> map fst dv = map fst T_rc16 ->
+  exists built, call_fun all_tables py_program f "scsi_cdb_readcapacity16.ReadCapacity16.marshall_datain" [PDict (dict_of_decoded dv)] = Ok (PBytes built) /\
+    call_fun all_tables py_program f "scsi_cdb_readcapacity16.ReadCapacity16.unmarshall_datain" [PBytes built] = Ok (PDict (dict_of_decoded dv)).
+Proof.
+  apply (plain_pair_round_trip _ _ "scsi_cdb_readcapacity16.ReadCapacity16._datain_bits"
+           PF_scsi_cdb_readcapacity16_ReadCapacity16_marshall_datain PF_scsi_cdb_readcapacity16_ReadCapacity16_unmarshall_datain T_rc16 32);
+    vm_compute; try reflexivity; discriminate.
+Qed.
